@@ -35,3 +35,28 @@ Theorem C13_http_history_independent : forall (uuid_of : Params.str -> option na
 Proof. exact HttpProofs.http_history_independent. Qed.
 Print Assumptions C13_http_history_independent.
 
+
+(* tie to the source, the cache protocol of TransitData::getConnectionsForScenario (read AS IT IS NOW by
+   tools/gen_scenario.py, gen/Scenario.v: gen_scen_protocol): the key handed to scenarioConnectionCache->get(...) and the key
+   handed to ->set(...) are both `scenario.uuid`; a hit returns the cached set without recomputation; a miss builds, stores,
+   returns.  The model's serve looks up and stores under that identifier, and is that protocol *)
+Require TrV.ScenCode TrV.gen.Scenario.
+From TrV Require Proofs.ScenarioTie.
+Module SCN.
+  Import TrV.ScenCode TrV.Proofs.ScenarioTie.
+  Import ListNotations.
+  Theorem C13_cache_key_is_scenario_uuid :
+    get_keys GS.gen_scen_protocol = [KScenarioUuid] /\ set_keys GS.gen_scen_protocol = [KScenarioUuid] /\
+    (forall s, key_of s KScenarioUuid = Some (s_id s)) /\
+    forall sv r s,
+      req_scenario r = Some (s_id s) -> find_scenario (sv_data sv) (s_id s) = Some s -> reaches_filters r = true ->
+      (forall cs, cache_get (sv_cache sv) (s_id s) = Some cs -> serve sv r = (respond (sv_data sv) cs r, sv)) /\
+      (cache_get (sv_cache sv) (s_id s) = None ->
+       serve sv r = (respond (sv_data sv) (conn_set (sv_data sv) s) r,
+                     {| sv_data := sv_data sv; sv_cache := cache_set (sv_cache sv) (s_id s) (conn_set (sv_data sv) s) |})) /\
+      (NoDup (map t_id (d_trips (sv_data sv))) ->
+       exists cs c', run_protocol gen_scen_code (sv_data sv) s (sv_cache sv) = Some (cs, c') /\
+                     serve sv r = (respond (sv_data sv) cs r, {| sv_data := sv_data sv; sv_cache := c' |})).
+  Proof. exact cache_key_is_scenario_uuid. Qed.
+  Print Assumptions C13_cache_key_is_scenario_uuid.
+End SCN.
